@@ -48,6 +48,7 @@ class AssocGen(ProgGen):
         self.names_used = set()
         self.parent_names = []      # stack: names bound by enclosing associates (innermost last)
         self.loopmark = []          # len(env.loopvars) at entry of each enclosing associate
+        self._top_seen = False
 
     # ------------------------------------------------------------------ variables
     def _setup_vars(self):
@@ -459,6 +460,8 @@ class AssocGen(ProgGen):
 
     def block(self, ind, depth, nstmts, loop_label=None):
         out = []
+        top = not self._top_seen
+        self._top_seen = True
         for _ in range(nstmts):
             if depth > 0 and self.depth_assoc < 3 and self.rng.random() < self.flags['assoc_density']:
                 self.stmt_count += 1
@@ -468,6 +471,16 @@ class AssocGen(ProgGen):
                 out += self.stmt_idx_use(ind)
             else:
                 out += super().block(ind, depth, 1, loop_label)
+        if top:
+            # every kernel has at least one ASSOCIATE nest of depth >= 2 (3 when blocks are merged)
+            want = 3 if self.flags['merge_safe'] else 2
+            dens = self.flags['assoc_density']
+            self.flags['assoc_density'] = 0.9
+            tries = 0
+            while self.max_assoc_depth < want and tries < 4:
+                out += self.stmt_associate(ind, max(depth, 3), loop_label)
+                tries += 1
+            self.flags['assoc_density'] = dens
         return out
 
     # ------------------------------------------------------------------ assembly: add the second derived type
